@@ -79,7 +79,7 @@ def check(run):
             nfresh += fresh_per_iteration(run, 'C08-R6', m_.name.split('.')[-1], m_, fn_, describe=False)
     run.floor('C08-R6', 1)
     from ..cachekey import check_caches
-    check_caches(run, list(mods.values()) + [inst], 'C08-K')
+    check_caches(run, list(mods.values()) + [inst], 'C08-K', prog=prog)
 
 
 def _resolver(prog):
